@@ -264,6 +264,22 @@ func cmdCheck(args []string) int {
 			}
 			if okk {
 				tracesValidated++
+			} else if strings.HasPrefix(ro.Outcome, "assert:") || ro.Outcome == "panic" || ro.Outcome == "hang" {
+				// The real code, run natively on this input, breaks the
+				// property although the engine's path passed: an assumption
+				// at the library/codec boundary (e.g. "a codec is a pure
+				// function of its data") does not hold for this tree. The
+				// native run is the witness; it is reported like any other
+				// replay-confirmed violation.
+				traceMismatch++
+				rc.Kind, rc.Msg = "native-only", ro.Outcome
+				rp, err := writeCase(filepath.Join(verifDir, "replays"), rc)
+				if err == nil {
+					violations++
+					violationLines = append(violationLines, fmt.Sprintf("VIOLATION property=%s replay=%s", ps.ID, rp))
+					fmt.Fprintf(os.Stderr, "confirmed (native only; the engine's boundary assumptions hid it): %s in %s %s\n", ro.Outcome, hs.Func, truncate(ro.Detail, 200))
+					samples = append(samples, map[string]any{"kind": "violation (native only)", "harness": hs.Func, "what": ro.Outcome, "nd": s.ND, "replay": rp})
+				}
 			} else {
 				traceMismatch++
 				discrepancies = append(discrepancies, fmt.Sprintf("%s: passing path replays natively as %s (%s)", hs.Func, ro.Outcome, truncate(ro.Detail, 200)))
